@@ -190,7 +190,8 @@ def gen_cases(seeds, tier, rng):
         cases += [c for c in full if c['kind'].startswith('nb')]
         cases += [c for c in full if c['kind'] in ('w4', 'w8') and rng.chance(1, 5)]
     else:
-        cases = full
+        cases = list(full)
+    nfull = len(full) + len(bigcases)
     cases += bigcases
     nmulti, nflip = (140, 100) if tier == 'quick' else (1500, 600)
     for k in range(nmulti):
@@ -217,7 +218,7 @@ def gen_cases(seeds, tier, rng):
             d[bit // 8] ^= 1 << (bit % 8)
             desc.append(str(bit))
         cases.append(dict(kind='bitflip', name='%s:flip:%s' % (s['name'], ','.join(desc)), data=bytes(d)))
-    return cases, len(full) + len(bigcases)
+    return cases, nfull
 
 
 # ------------------------------------------------------------------------------------------
